@@ -35,7 +35,9 @@ def run(ctx):
     ctx.run_mvh(["c01", "-out", tr, "-seed", ctx.seed, "-tier", ctx.tier, "-vectors", ctx.path("vectors.ndjson")])
     parts = vf.split_ndjson(tr, vf.NCPU, ctx.path("c01part"))
     # 3. validate every record with the PWire monitor
-    res = ctx.validate("Trace_Wire", [p for p, _ in parts])
+    defs = ctx.path("defs.json")
+    ctx.run_mvh(["defs", "-out", defs])
+    res = ctx.validate("Trace_Wire", [p for p, _ in parts], env={"DEFS": defs})
     total = 0
     kinds = {}
     hfail = []
@@ -70,7 +72,7 @@ def run(ctx):
     ctx.cov["spec_vectors"] = nvec
     ctx.cov["rule"] = ("one record per real frame.Writer.Write / frame.Reader.Read call on generated frames (every header "
                        "byte value one at a time, id bits and boundaries, payload lengths 0..255 x 4 content classes, every "
-                       "timestamp/signature bit, random) plus TLC-computed vectors; distinct = (record kind, version, signed, "
+                       "timestamp/signature bit, random), decoded messages of the dialect 'all' encoded by the writer (40 types quick, all thorough) plus TLC-computed vectors; distinct = (record kind, version, signed, "
                        "payload length, id>255, dialect mode) classes")
     ctx.assumptions += ["MavFrame.tla transcribes the MAVLink serialization document correctly (checked lossless/prefix-free by MC_Frame)",
                         "TLC evaluates the operators correctly"]
